@@ -1,11 +1,14 @@
 package sd
 
 import (
+	"os"
 	"sync"
 	"sync/atomic"
 	"time"
 
+	"github.com/google/uuid"
 	"github.com/semafind/semadb/models"
+	"github.com/semafind/semadb/shard"
 	"github.com/vmihailenco/msgpack/v5"
 )
 
@@ -17,6 +20,7 @@ type ConcOpts struct {
 	Rank     int
 	Cold     bool // reopen the shard (cold caches) right before the searchers start
 	MaxBatch int
+	Other    bool // a second shard on the same cache manager receives a write stream too
 }
 
 type csearch struct {
@@ -146,6 +150,41 @@ func (r *Runner) RunConcHistory(histNo int, o ConcOpts) error {
 		}
 	}
 	launch(0)
+	if o.Other && !r.Cfg.Mem {
+		// load on another shard of the same manager (as on a multi-shard node):
+		// its caches are sized by every prune the searchers trigger
+		other, err := shard.NewShard(r.DBFile+".other", r.Col, r.CM)
+		if err != nil {
+			return err
+		}
+		defer func() { other.Close(); os.Remove(r.DBFile + ".other") }()
+		wg.Add(1)
+		go func() {
+			defer wg.Done()
+			og := NewRunner(r.Cfg, int64(histNo)+4242, nil, r.Dir)
+			og.believedLive = map[int]bool{}
+			for !stop.Load() {
+				var pts []GenPoint
+				for _, id := range og.pickFresh(40) {
+					pts = append(pts, og.gen(id, false, 0.9))
+				}
+				if len(pts) == 0 {
+					og.believedLive = map[int]bool{}
+					set := map[uuid.UUID]struct{}{}
+					for id := 1; id <= og.Cfg.N(); id++ {
+						set[UUIDOf(id)] = struct{}{}
+					}
+					other.DeletePoints(set)
+					continue
+				}
+				if other.InsertPoints(realBatch(pts)) == nil {
+					for _, p := range pts {
+						og.believedLive[p.ID] = true
+					}
+				}
+			}
+		}()
+	}
 	for b := 0; b < o.Batches; b++ {
 		batch := r.GenBatch()
 		started.Add(1)
